@@ -34,6 +34,7 @@ struct C01 : Driver {
     c.data = gen::input(rng, level, pick_max_size(rng, tier, level), &c.data_desc);
     c.runs.push_back(compress_cfg(rng, level, seq, random_workers(rng), true));
     c.runs.push_back(decompress_cfg(rng, random_workers(rng), true, c.data.size() / 2 + 100, c.data.size()));
+    if (rng.below(8) == 0) use_default_workers(c.runs[rng.below(2)]);      // no -n: one worker per (simulated) CPU
     return c;
   }
   Verdict eval(const Case &c, Ctx &ctx) const override {
@@ -84,6 +85,7 @@ struct C03 : Driver {
       RunCfg r = compress_cfg(rng, level, seq, k == 0 ? 1 : random_workers(rng), k != 0);
       if (k == 0) { r.sched = sim::Sched(); r.sched.policy = sim::P_DEFAULT; r.in_kind = sim::K_FILE; }
       else if (rng.below(3) == 0) { r.argv.push_back("f"); }     // FILE operand: f -> f.bz2
+      if (k != 0 && rng.below(10) == 0) use_default_workers(r);
       c.runs.push_back(r);
     }
     return c;
@@ -191,6 +193,7 @@ struct C09 : Driver {
       RunCfg r = decompress_cfg(rng, k == 0 ? 1 : random_workers(rng), k != 0, c.data.size(), plain.size());
       if (k == 0) { r.sched = sim::Sched(); r.sched.policy = sim::P_DEFAULT; }
       else {
+        if (rng.below(10) == 0) use_default_workers(r);
         switch (rng.below(6)) {
         case 0: r.argv.push_back("f.bz2"); c.p["m" + std::to_string(k)] = 1; break;           // FILE operand -> f
         case 1: r.argv.push_back("-c"); r.argv.push_back("f.bz2"); c.p["m" + std::to_string(k)] = 2; break;
